@@ -541,7 +541,37 @@ func (c *c08Case) runHistory(ctx *core.Ctx) {
 	ctx.Outcome(fmt.Sprint(len(seen)))
 }
 
+// runVue: sequences of Vue.Render calls of one page with front-matter and a defaulting
+// <template>; what a call prints is decided by its own data and the page's front-matter alone.
+func (c *c08Case) runVue(ctx *core.Ctx) {
+	ctx.NonTrivial()
+	files := Files{"page.vuego": "---\nk: fmK\n---\n" + `<template v-if="!j" :j="'dflt'"></template><p>{{ k }}|{{ j }}</p><i v-if="j == 'J1'">one</i>`}
+	datas := map[string]any{"nil": nil, "empty": map[string]any{}, "j1": map[string]any{"j": "J1"}, "j2k": map[string]any{"j": "J2", "k": "dataK"}, "typed": map[string]string{"j": "J1"}}
+	want := map[string]string{"nil": "fmK|dflt", "empty": "fmK|dflt", "j1": "fmK|J1+one", "j2k": "fmK|J2", "typed": "fmK|J1+one"}
+	v := vuego.NewVue(files.FS())
+	for i, d := range c.Prefix {
+		var buf bytes.Buffer
+		ctx.Eval(1)
+		ctx.Transition(1)
+		err := v.Render(&buf, "page.vuego", datas[d])
+		nodes := htmlcmp.Parse(buf.String())
+		got := strings.Join(texts(nodes, "p"), "")
+		if len(texts(nodes, "i")) > 0 {
+			got += "+one"
+		}
+		if err != nil || got != want[d] {
+			ctx.Violation("precedence", "vue-render-sequence/"+d, "after-"+strings.Join(c.Prefix[:i], ","), fmt.Sprintf("Vue.Render calls %v on one engine: call %d (data %s) printed %q (err %v), want %q", c.Prefix[:i+1], i, d, got, err, want[d]))
+			return
+		}
+	}
+	ctx.Outcome(strings.Join(c.Prefix, ","))
+}
+
 func (c *c08Case) Run(ctx *core.Ctx) {
+	if c.Part == "vue" {
+		c.runVue(ctx)
+		return
+	}
 	if c.Part == "history" {
 		c.runHistory(ctx)
 		return
@@ -554,6 +584,7 @@ func init() {
 		ID:    "C08",
 		Level: "model_checking",
 		Rule: "presence part: all 2^5 subsets of {front-matter, Fill, Assign, data/a.yml, theme.yml} defining the key x Fill/Assign order x Load before/after x Fill datum {map, struct, *struct} x name {JSON tag, Go field} x value type {string,int,list} x read position {{{ }}, v-if ==, :attr, expression, Get} x entry point {Load+Render, RenderFile, RenderString}; " +
+			"vue part: every sequence of <=3 Vue.Render calls of one front-matter page (which defaults a variable with a <template v-if>) with data nil / empty / map / map overriding a front-matter key / typed map on one engine, each call judged by its own data; " +
 			"history part: explicit-state search over all sequences of {Fill(k), Fill(j only), Fill(struct), Assign(k), Assign(j), New, Load(with fm), Load(plain), Fill(nil)} on a tree of <=3 templates, each replayed on a fresh engine made with NewFS(fs) and - without the Load operations - with New() (no file system, no config layer); after every step every live template is observed (render + Get) against a layered reference model, and templates other than the target must be unchanged. states = distinct (model, observation) states; non-trivial = all",
 		Bounds:      map[string]string{"quick": "history depth <= 4", "thorough": "history depth <= 6"},
 		Assumptions: []string{"a key set by an earlier Assign/Fill and not mentioned by a later Fill may survive or be dropped", "a struct passed to Fill whose field is nil is unconstrained"},
@@ -569,6 +600,14 @@ func init() {
 					emit(&c08Case{Part: "history", Prefix: []string{"0:" + o1}, Depth: depth + 1, NoFS: true})
 				}
 			}
+			vd := []string{"nil", "empty", "j1", "j2k", "typed"}
+			tokenStrings(vd, 3, func(tok []int) {
+				var seq []string
+				for _, i := range tok {
+					seq = append(seq, vd[i])
+				}
+				emit(&c08Case{Part: "vue", Prefix: seq})
+			})
 			for mask := 0; mask < 32; mask++ {
 				for _, order := range []string{"FA", "AF"} {
 					for _, la := range []string{"first", "last"} {
